@@ -409,6 +409,7 @@ CODE_TEXT = {
     701: 'caller observed success after cancel without handler OK', 703: 'caller operation did not return when its context was cancelled',
     704: 'handler operation still pending after the cancel notice was delivered', 802: 'handler invoked twice for one RPC', 803: 'wrong handler invoked',
     901: 'panic', 1001: 'handler started for an RPC begun after shutdown', 1002: 'RPC begun after shutdown was not refused with Unavailable',
+    501: 'flow-controlled sender left parked although its whole window had been credited back (lost wake-up)', 902: 'live heap of the endpoint grew by more than 48 MiB under a hostile peer (MiB in a)',
     1003: 'tunnel ended after graceful shutdown was initiated', 1004: 'Stop returned before every Serve call had returned',
     1005: 'GracefulStop did not return although the RPCs in flight had finished', 1103: 'settings frame present/absent contrary to advertisement',
     1201: 'RPC routed to a different tunnel than the round-robin model picks', 1202: 'routing failed / succeeded contrary to the registry model',
@@ -480,6 +481,11 @@ def run_sim(family, seed, count, scenario_file=None, keep_trace=False):
                 last = [l for l in txt.split('\n') if l.startswith('S ')][-1].split(' ')[1]
                 why = 'panic' if 'panic: ' in o and 'deadlock: all goroutines in bubble are blocked' not in o else 'leak'
                 tail = ' | '.join(x.strip() for x in o.split('\n') if 'grpctunnel' in x)[:1500]
+                try:   # keep the whole crash output: the trace line only has room for a summary
+                    os.makedirs(os.path.join(WORK, 'replay'), exist_ok=True)
+                    open(os.path.join(WORK, 'replay', 'crash-%s-%d-%s.log' % (family.replace(':', '_'), seed, last)), 'w').write(o[-200000:])
+                except OSError:
+                    pass
                 if not txt.endswith('\n'):
                     txt += '\n'
                 txt += 'X %s %s %s\n' % (last, why, tail)
